@@ -78,7 +78,14 @@ def r7_conversion(run, tree):
     af.check_to_fold(run, tree)
 
 
-RULES = [r1_forwarding, r2_lifting, r3_cross, r4_norm, r5_dot, r6_construction, r7_conversion]
+def r8_gate(run, tree):
+    run.rule("C09.R8", "every numeric result of a component operation keeps its unit, integers included (dot, cross, +, -, * of integer-valued Vectors; shared with C02.R4/C10.R4)",
+             "D7 fold of _wrap_numpy over the dtype model", "numpy dtype model", floor=14)
+    from . import array_folds as af
+    af.check_wrap_numpy_fold(run, tree, want=("gate-numeric", "gate-bool"))
+
+
+RULES = [r1_forwarding, r2_lifting, r3_cross, r4_norm, r5_dot, r6_construction, r7_conversion, r8_gate]
 
 
 def t_pair_space(run, tree):
